@@ -701,7 +701,8 @@ Section Sim.
             destruct BP2 as [BP2|[BP2 BP3]]; [left; exact BP2|]. right. exists x. cbn [b_al b']. rewrite BP2. auto. }
           split; [rewrite (new_var_fbase _ _ _ _ En); eapply alloc_fbase; eauto|].
           intros b0 [<-|[]]. destruct BP2 as [BP2|[BP2 BP3]]; [left; exact BP2|]. right. exists x. cbn [b_al b']. rewrite BP2.
-          unfold may_elide in Ec3. rewrite Lx in Ec3. apply andb_true_iff in Ec3. destruct Ec3 as [Q1 Q2].
+          unfold may_elide in Ec3. rewrite Lx in Ec3. apply andb_true_iff in Ec3. destruct Ec3 as [Ec3 _].
+          apply andb_true_iff in Ec3. destruct Ec3 as [Q1 Q2].
           apply Nat.leb_le in Q1. apply negb_true_iff in Q2. auto.
         * (* copied or claimed, in both modes *)
           assert (Hl : live st1 l) by (eapply rv_read_live; eauto).
